@@ -51,7 +51,7 @@ def gen_eqn_session(S, idx):
         ops.append({'op': 'knob', 'name': 'TraceStep', 'value': kn.randint(1, T)})
     if kn.random() < 0.3:
         ops.append({'op': 'knob', 'name': 'ParameterErrorTolerance', 'value': kn.choice([1e-6, 1e-10])})
-    steady = kn.random() < 0.12
+    steady = kn.random() < 0.2
     if steady:
         # a block with period-to-period dynamics whose steady state differs from its initial conditions
         g = round(rng.uniform(5, 40), 1)
@@ -60,6 +60,8 @@ def gen_eqn_session(S, idx):
                  'maxtime': T, 'err_tol': None}
         ops.append({'op': 'knob', 'name': 'ParameterSolveInitialSteadyState', 'value': True})
         ops.append({'op': 'knob', 'name': 'ParameterInitialSteadyStateMaxTime', 'value': kn.choice([20, 40])})
+        if kn.random() < 0.5:
+            ops.append({'op': 'exclude_inplace', 'names': kn.choice([['w'], ['w', 'LAG_w'], ['c']])})
     ops.append({'op': 'parse', 'block': block})
     mode = kn.choice(['mono', 'step', 'step']) if not steady else 'mono'
     if mode == 'mono':
@@ -283,6 +285,13 @@ def exec_eqn_op(st, op, quiet):
                 if quiet and op['name'] == 'TraceStep':
                     return 'skipped', None
                 setattr(st.solver, op['name'], op['value'])
+                return 'ok', None
+            if name == 'exclude_inplace':
+                # this session adds a name to *its own* solver's steady-state exclusion list, in place
+                lst = st.solver.ParameterInitialSteadyStateExcludedVariables
+                for v in op['names']:
+                    if v not in lst:
+                        lst.append(v)
                 return 'ok', None
             if name == 'parse':
                 st.solver.ParseString(render(op['block']))
